@@ -138,7 +138,7 @@ def parseSpec (s : String) : Option Spec :=
       let lease ← parseRel lease
       let rest := (k.drop 1).toString
       -- an alias is chased with the question's own type: the target stays on the name's side (n = A, m = AAAA)
-      some { name := name, kind := kc, tgt := if rest.startsWith "p" || rest.startsWith "u" then rest else (name.take 1).toString ++ rest, ans := ans, ns := ns, lease := lease, isScoped := sc == "s", extra := extra }
+      some { name := name, kind := kc, tgt := if rest.startsWith "p" || rest.startsWith "u" || rest.startsWith "q" then rest else (name.take 1).toString ++ rest, ans := ans, ns := ns, lease := lease, isScoped := sc == "s", extra := extra }
     | _ => none
   | _ => none
 
@@ -178,7 +178,8 @@ structure HState where
   pfPct : Nat := 0                       -- CacheConfig.Prefetch
   bigExpire : Bool := false              -- `expire` configured above 24 h (one week)
   pfq : List (String × Nat) := []         -- queued refreshes: (name, id of the entry that claimed it)
-  proofSoa : Option (Int × Nat × Item × Item) := none
+  -- keyed by zone letter ("p" = NSEC-signed pz.test., "q" = NSEC3-signed qz.test.) / by name token ("p1", "q2")
+  proofSoa : List (String × (Int × Nat × Item × Item)) := []
   proofNsec : List (String × (Int × Nat × Item × Item)) := []
 
 def getSlot (st : HState) (k : String × Bool) : Option HEntry := (st.slots.find? (fun p => p.1 == k)).map (·.2)
@@ -240,6 +241,8 @@ def sigPRR (now : Int) (ttl : Nat) (g : Item) : ProofRR :=
 
 /-- `RecordDenialProof` for owner `i` at `now`: records with the given TTLs
 (the admitted ones, or the TTL a synthesis showed when its proof is re-recorded). -/
+def zoneOf (tok : String) : String := (tok.take 1).toString
+
 def recordProof (st : HState) (i : String) (now : Int) (cut : Option Int)
     (sTtl : Nat) (s g : Item) (pTtl : Nat) (p g2 : Item) (gsTtl g2Ttl : Nat) (gen : Nat) : Option HState :=
   let common : List ProofRR := [{ rr := { ttl := sTtl, kind := .soa s.a.toNat } }, sigPRR now gsTtl g]
@@ -247,21 +250,25 @@ def recordProof (st : HState) (i : String) (now : Int) (cut : Option Int)
   match proofAdmit hardMaxProof now (if st.bigExpire then proofMaxTTLBig else proofMaxTTL) cut common set with
   | none => none
   | some (se, ne) =>
-    some { st with proofSoa := some (se, gen, s, g),
+    some { st with proofSoa := (zoneOf i, (se, gen, s, g)) :: st.proofSoa.filter (·.1 != zoneOf i),
                    proofNsec := (i, (ne, gen, p, g2)) :: st.proofNsec.filter (·.1 != i) }
 
 /-- `lookupDenialProof` + `denialProofResponse` for owner `i`. -/
 def synthReply (st : HState) (i : String) (now : Int) : Option (Reply × Int) :=
-  match st.proofSoa, st.proofNsec.lookup i with
+  -- reply pieces: "sz"/"s<k>" for the NSEC zone, "tz"/"t<k>" for the NSEC3 zone
+  let zt := if zoneOf i == "q" then "t" else "s"
+  let k := (i.drop 1).toString
+  match st.proofSoa.lookup (zoneOf i), st.proofNsec.lookup i with
   | some (se, sgen, s, g), some (ne, ngen, _p, g2) =>
     match synthServe se [ne] now with
     | none => none
     | some (ttl, exp) =>
       let ns : List NsRec := [
-        { rid := (1000000 + sgen, 0), owner := "sz", ttl := ttl, kind := .soa s.a.toNat },
-        { rid := (1000000 + sgen, 1), owner := "sz", ttl := ttl, kind := .sig g.b },
-        { rid := (2000000 + ngen, 0), owner := "s" ++ i, ttl := ttl, kind := .plain },
-        { rid := (2000000 + ngen, 1), owner := "s" ++ i, ttl := ttl, kind := .sig g2.b }]
+        { rid := (1000000 + sgen, 0), owner := zt ++ "z", ttl := ttl, kind := .soa s.a.toNat },
+        { rid := (1000000 + sgen, 1), owner := zt ++ "z", ttl := ttl, kind := .sig g.b },
+        -- an NSEC record carries its admission in its RDATA, an NSEC3 record does not (same RDATA again)
+        { rid := if zt == "t" then (4000000, k.toNat!) else (2000000 + ngen, 0), owner := zt ++ k, ttl := ttl, kind := .plain },
+        { rid := (2000000 + ngen, 1), owner := zt ++ k, ttl := ttl, kind := .sig g2.b }]
       some ({ ns := ns, synth := some (i, ttl) }, exp)
   | _, _ => none
 
@@ -303,7 +310,7 @@ def rerecordCut (cutMax : Int) (st : HState) (r : Reply) (now : Int) (cut : Opti
 validated synthesis re-records that proof (with the TTLs it was shown with)
 under the request tree's cut. -/
 def rerecord (st : HState) (r : Reply) (now : Int) (cut : Option Int) : HState :=
-  match r.synth, st.proofSoa with
+  match r.synth, r.synth.bind (fun x => st.proofSoa.lookup (zoneOf x.1)) with
   | some (i, ttl), some (_, sgen, s, g) =>
     match st.proofNsec.lookup i with
     | some (_, ngen, p, g2) =>
@@ -368,22 +375,24 @@ def serve (cfg : Cfg) (script : List (String × Spec)) (now : Int) :
       | (st, none) => (st, none, m0)
     else
     -- a name of the proof zone: never admitted itself; CD / ECS request trees bypass shared denial
-    if name.startsWith "p" then
+    if name.startsWith "p" || name.startsWith "q" then
       if bypass then (st, none, m0) else
-      match synthReply st (name.drop 1).toString now with
+      match synthReply st name now with
       | some (r, exp) => (st, some r, boundCut m0 (some exp))     -- boundRequestTo(ctx, proofExpires)
       | none => (st, none, m0)
     else
     match lookupSlots st name (ecs && !internal) now with
     | (st, some he) =>
       -- handleCacheHit: ToMsg / serveWire / serveWireIntoRequest all stamp `secs (remaining now)`
-      match he.e.toMsgTTL now with
+      -- a hit reads the clock after whatever this op admitted: an entry stored in this very op is
+      -- seen a moment later (whole-second readings of older entries do not depend on that moment)
+      match he.e.toMsgTTL (now + 1) with
       | none => (st, none, m0)
       | some shown =>
         -- handleCacheHit: a shared entry inside the prefetch window claims one refresh (CAS on
         -- entry.prefetch) and queues it with the entry it set out to replace
         let isShared := match getSlot st (name, false) with | some x => x.id == he.id | none => false
-        let st := if isShared && he.e.shouldPrefetch st.pfPct he.claimed now then
+        let st := if isShared && he.e.shouldPrefetch st.pfPct he.claimed (now + 1) then
             { setSlot st (name, false) { he with claimed := true } with pfq := st.pfq ++ [(name, he.id)] }
           else st
         -- boundRequestToEntryLifetime
@@ -454,7 +463,8 @@ def dedupStr (l : List String) : List String :=
 /-- a client without DO gets the reply with its DNSSEC records stripped: the
 NSEC RRset of a synthesis (pieces `s<i>`) consists of nothing else. -/
 def stripForDO (doBit : Bool) (r : Reply) : Reply :=
-  if doBit then r else { r with ns := r.ns.filter fun n => !(n.owner.startsWith "s" && n.owner != "sz") }
+  if doBit then r else { r with ns := r.ns.filter fun n =>
+    !((n.owner.startsWith "s" && n.owner != "sz") || (n.owner.startsWith "t" && n.owner != "tz")) }
 
 def replyTokens (r : Reply) : String :=
   let ansToks := r.ans.map fun p =>
@@ -548,6 +558,25 @@ def completeRefresh (h : HState) (script : List (String × Spec)) (now : Int) (n
       else h
     | none => h
 
+/-- `c cutrec`: `Store.RecordNXDomainCut`. -/
+def stepCutrec (st : State) (k items lease : String) : State × String :=
+  let h := st.h
+    match parseItems items, parseRel lease with
+  | some [s, g1, p, g2], some lease =>
+    let h := { h with j := h.j + 1 }
+    let now := nowOf h
+    let sigRR (g : Item) : ProofRR := { rr := { ttl := g.ttl, kind := .rrsig (now + g.b * S) }, orig := g.a.toNat }
+    let recs : List ProofRR := [{ rr := { ttl := s.ttl, kind := .soa s.a.toNat } }, sigRR g1, { rr := { ttl := p.ttl } }, sigRR g2]
+    match cutRecordTTL (if h.bigExpire then cutMaxTTLBig else cutMaxTTL) now s.ttl s.a.toNat recs (lease.map fun l => now + l * S) with
+    | none => ({ st with h := h }, "f")
+    | some ttl =>
+      let tok := "d" ++ k
+      let id := h.nextId
+      ({ st with h := { h with nextId := id + 1, cuts := (tok, now + ttl) :: h.cuts.filter (·.1 != tok),
+                                cutItems := (tok, (id, s, g1, p, g2)) :: h.cutItems.filter (·.1 != tok) } },
+        "t exp=" ++ toString (ceilDiv ttl))
+  | _, _ => (st, "bad-op")
+
 def stepHist (st : State) (w : List String) : State × String :=
   let h := st.h
   match w with
@@ -555,6 +584,11 @@ def stepHist (st : State) (w : List String) : State × String :=
     match cap.toInt? with
     | some c => ({ st with h := { ecsCap := c * S } }, "ok")
     | none => (st, "bad-op")
+  | ["c", "new", cap, _, pf, expire, _size] =>
+    -- a cachesize below 1024 makes cache.New take its fallback; nothing of the lifetime rules may change
+    match cap.toInt?, pf.toNat? with
+    | some c, some pf => ({ st with h := { ecsCap := c * S, pfPct := pf, bigExpire := expire != "7200" } }, "ok")
+    | _, _ => (st, "bad-op")
   | ["c", "new", cap, _, pf, expire] =>
     match cap.toInt?, pf.toNat? with
     | some c, some pf => ({ st with h := { ecsCap := c * S, pfPct := pf, bigExpire := expire != "7200" } }, "ok")
@@ -615,8 +649,8 @@ def stepHist (st : State) (w : List String) : State × String :=
         match expiryServeTTL exp now with
         | none => ({ st with h := { h with cuts := h.cuts.filter (·.1 != tok) } }, "miss")
         | some t => ({ st with h := h }, "hit " ++ tok ++ "~" ++ toString t ++ " bound=" ++ showBound (boundCut none (some exp)))
-    else if name.startsWith "p" then
-      match synthReply h (name.drop 1).toString now with
+    else if name.startsWith "p" || name.startsWith "q" then
+      match synthReply h name now with
       | some (r, exp) => ({ st with h := h }, "hit " ++ replyTokens r ++ " bound=" ++ showBound (boundCut none (some exp)))
       | none => ({ st with h := h }, "miss")
     else
@@ -651,7 +685,10 @@ def stepHist (st : State) (w : List String) : State × String :=
         ({ st with h := h }, "pf" ++ listing h id0 now)
       | none => ({ st with h := h }, "pf")
     | none => (st, "bad-op")
-  | ["c", "prec", k, items, lease] =>
+  | ["c", precOp, k, items, lease] =>
+    if precOp != "prec" && precOp != "prec3" && precOp != "cutrec" then (st, "bad-op") else
+    if precOp == "cutrec" then stepCutrec st k items lease else
+    let k := (if precOp == "prec3" then "q" else "p") ++ k
     match parseItems items, parseRel lease with
     | some [s, g, p, g2], some lease =>
       let h := { h with j := h.j + 1 }
@@ -661,7 +698,7 @@ def stepHist (st : State) (w : List String) : State × String :=
       match recordProof h k now (lease.map fun l => now + l * S) s.ttl s g p.ttl p g2 g.ttl g2.ttl id with
       | none => ({ st with h := h }, "f")
       | some h' =>
-        let se := match h'.proofSoa with | some (e, _, _, _) => e | none => now
+        let se := match h'.proofSoa.lookup (zoneOf k) with | some (e, _, _, _) => e | none => now
         let ne := match h'.proofNsec.lookup k with | some (e, _, _, _) => e | none => now
         ({ st with h := h' }, "t soa=" ++ toString (ceilDiv (se - now)) ++ " nsec=" ++ toString (ceilDiv (ne - now)))
     | _, _ => (st, "bad-op")
@@ -675,22 +712,6 @@ def stepHist (st : State) (w : List String) : State × String :=
       let h := q.foldl (fun h (c : String × Nat) => completeRefresh h script now c.1 c.2) { h with pfq := [] }
       ({ st with h := h }, "pf n=" ++ toString q.length ++ listing h id0 now)
     | none => (st, "bad-op")
-  | ["c", "cutrec", k, items, lease] =>
-    match parseItems items, parseRel lease with
-    | some [s, g1, p, g2], some lease =>
-      let h := { h with j := h.j + 1 }
-      let now := nowOf h
-      let sigRR (g : Item) : ProofRR := { rr := { ttl := g.ttl, kind := .rrsig (now + g.b * S) }, orig := g.a.toNat }
-      let recs : List ProofRR := [{ rr := { ttl := s.ttl, kind := .soa s.a.toNat } }, sigRR g1, { rr := { ttl := p.ttl } }, sigRR g2]
-      match cutRecordTTL (if h.bigExpire then cutMaxTTLBig else cutMaxTTL) now s.ttl s.a.toNat recs (lease.map fun l => now + l * S) with
-      | none => ({ st with h := h }, "f")
-      | some ttl =>
-        let tok := "d" ++ k
-        let id := h.nextId
-        ({ st with h := { h with nextId := id + 1, cuts := (tok, now + ttl) :: h.cuts.filter (·.1 != tok),
-                                  cutItems := (tok, (id, s, g1, p, g2)) :: h.cutItems.filter (·.1 != tok) } },
-          "t exp=" ++ toString (ceilDiv ttl))
-    | _, _ => (st, "bad-op")
   | _ => (st, "bad-op")
 
 def stepTTL (st : State) (w : List String) : State × String :=
